@@ -16,6 +16,10 @@ use serde_json::json;
 use std::sync::Arc;
 use vharness::common::*;
 
+/// cases are buffered so that the generator statistics can be attached to the first case
+struct Buf { v: Vec<Case>, n: usize }
+impl Buf { fn push(&mut self, c: Case) { self.v.push(c); self.n += 1; } }
+
 fn gstr(s: &str) -> String { glist(&s.chars().map(|c| gn(c as u64)).collect::<Vec<_>>()) }
 fn enc_str(s: &str, o: &mut Vec<i64>) { let cs: Vec<char> = s.chars().collect(); o.push(cs.len() as i64); for c in cs { o.push(c as i64) } }
 
@@ -187,7 +191,7 @@ fn gen_tokens(rng: &mut Rng, only_quote: bool) -> Vec<Tok> {
     }).collect()
 }
 
-fn str_case(out: &mut Out, w: &World, how: How, text: &str, kind: &str) {
+fn str_case(out: &mut Buf, w: &World, how: How, text: &str, kind: &str) {
     // Param: text is the value; Literal: text is what stands between the quotes
     let rt = match how {
         How::Param => {
@@ -227,7 +231,7 @@ fn float_text(f: f64) -> String {
 }
 fn raw_number_bits(raw: &str) -> i64 { raw.trim().parse::<f64>().map(|f| f.to_bits() as i64).unwrap_or(-1) }
 
-fn flt_case(out: &mut Out, w: &World, how: How, f: f64, kind: &str) {
+fn flt_case(out: &mut Buf, w: &World, how: How, f: f64, kind: &str) {
     let text = float_text(f);
     let tb = text.parse::<f64>().unwrap().to_bits() as i64;
     let rt = match how {
@@ -246,7 +250,7 @@ fn flt_case(out: &mut Out, w: &World, how: How, f: f64, kind: &str) {
     out.push(Case { kind: kind.into(), coq: format!("CFlt {} {} {} {}", how.coq(), gz(f.to_bits() as i64), gz(tb), gb(display_exact)), obs,
         meta: json!({"value": format!("{:e}", f), "literal": text, "digits": digits, "stored_raw": rt.raw, "read_back_raw": rt.back_raw, "by_param": rt.by_param, "by_literal": rt.by_literal, "note": rt.note}) });
 }
-fn int_case(out: &mut Out, w: &World, how: How, z: i64) {
+fn int_case(out: &mut Buf, w: &World, how: How, z: i64) {
     let rt = match how {
         How::Param => { let mut wp = Parameters::new(); wp.add("v", z).unwrap(); round_trip(w, "i", "$v", wp, Box::new(move |p| p.add("p", z).unwrap()), &z.to_string()) }
         How::Literal => round_trip(w, "i", &z.to_string(), Parameters::new(), Box::new(move |p| p.add("p", z).unwrap()), &z.to_string()),
@@ -255,7 +259,7 @@ fn int_case(out: &mut Out, w: &World, how: How, z: i64) {
     let obs = if rt.status == 0 { vec![0, back, rt.by_param, rt.by_literal, rt.frame] } else { vec![rt.status] };
     out.push(Case { kind: "int".into(), coq: format!("CInt {} {}", how.coq(), gz(z)), obs, meta: json!({"value": z, "read_back_raw": rt.back_raw, "note": rt.note}) });
 }
-fn bool_case(out: &mut Out, w: &World, how: How, b: bool) {
+fn bool_case(out: &mut Buf, w: &World, how: How, b: bool) {
     let rt = match how {
         How::Param => { let mut wp = Parameters::new(); wp.add("v", b).unwrap(); round_trip(w, "b", "$v", wp, Box::new(move |p| p.add("p", b).unwrap()), &b.to_string()) }
         How::Literal => round_trip(w, "b", &b.to_string(), Parameters::new(), Box::new(move |p| p.add("p", b).unwrap()), &b.to_string()),
@@ -357,7 +361,7 @@ fn gen_squery(rng: &mut Rng, m: &SModel, string_fields: &[usize]) -> SQuery {
     q
 }
 
-fn statements(out: &mut Out, rng: &mut Rng) {
+fn statements(out: &mut Buf, rng: &mut Rng) {
     // CDefault: arbitrary text as the default of a String field
     let defaults = ["dd", "it's", "a''b", "' OR '1'='1", "x' --", "", "a b", "%", "é\u{10000}", "a\"b", "'", "''", "a,b(c)", "?1", "null"];
     let n_random = scale(25, 300);
@@ -435,7 +439,8 @@ fn statements(out: &mut Out, rng: &mut Rng) {
 
 fn main() {
     let mut rng = Rng::from_env();
-    let mut out = Out::create();
+    let mut real_out = Out::create();
+    let mut out = Buf { v: vec![], n: 0 };
     let w = new_world();
     // directed: the known finding and its neighbours
     str_case(&mut out, &w, How::Literal, "a\\\\b", "directed-K1-literal-backslash");
@@ -476,5 +481,14 @@ fn main() {
     let _ = &w.s_short;
     statements(&mut out, &mut rng);
     eprintln!("c04: {} cases", out.n);
-    out.finish();
+    let mut kinds: std::collections::BTreeMap<String, (usize, usize, usize)> = Default::default();   // kind -> (cases, write refused, frame violated)
+    for c in &out.v {
+        let e = kinds.entry(c.kind.split('-').next().unwrap().to_string()).or_default();
+        e.0 += 1;
+        if c.kind != "shape" && c.obs.first().map(|s| *s != 0 && c.obs.len() == 1).unwrap_or(false) { e.1 += 1; }
+        if c.meta.get("frame").and_then(|f| f.as_i64()) == Some(0) { e.2 += 1; }
+    }
+    out.v[0].meta["generator"] = json!(kinds.iter().map(|(k, v)| format!("{}: {} cases, {} refused, {} frame violations", k, v.0, v.1, v.2)).collect::<Vec<_>>());
+    for c in out.v { real_out.push(c); }
+    real_out.finish();
 }
